@@ -3,6 +3,9 @@
 #include <boost/gil/extension/io/png.hpp>
 #include <boost/gil/extension/io/jpeg.hpp>
 #include <boost/gil/extension/io/tiff.hpp>
+#include <boost/gil/extension/io/bmp.hpp>
+#include <boost/gil/extension/io/pnm.hpp>
+#include <boost/gil/extension/io/targa.hpp>
 using namespace vf;
 template <class Tag, class Img> void wr(Img& img, Tag tag){ std::string name("f"); write_view(name, const_view(img), tag); read_image(name, img, tag); }
 void inst(){
@@ -10,4 +13,9 @@ void inst(){
   wr(a, png_tag()); wr(b, png_tag()); wr(c, png_tag()); wr(d, png_tag());
   wr(a, jpeg_tag());
   wr(a, tiff_tag()); wr(b, tiff_tag()); wr(d, tiff_tag());
+  // W5c: the writers GIL implements itself, each with both memory orders of one colour space
+  rgb8_image_t r3; rgba8_image_t r4;
+  wr(a, pnm_tag()); wr(r3, pnm_tag());
+  wr(a, bmp_tag()); wr(r3, bmp_tag()); wr(b, bmp_tag()); wr(r4, bmp_tag());
+  wr(a, targa_tag()); wr(r3, targa_tag()); wr(b, targa_tag()); wr(r4, targa_tag());
 }
